@@ -19,7 +19,8 @@ pub struct Snapshot {
     pub lc_index: Vec<(u64, Option<SaitoHash>)>,
     pub blocks: BTreeMap<SaitoHash, (u64, bool)>,
     pub wallet_balance: u64,
-    pub wallet_slips: BTreeSet<Vec<u8>>,
+    /// utxo key -> (amount, block id, tx ordinal, slip index, on-chain flag, spent flag, type code)
+    pub wallet_slips: BTreeMap<Vec<u8>, (u64, u64, u64, u8, bool, bool, u8)>,
     pub wallet_unspent: BTreeSet<Vec<u8>>,
     pub pool: BTreeSet<Vec<u8>>,
 }
@@ -37,7 +38,7 @@ pub async fn snapshot(n: &Node, max_id: u64) -> Snapshot {
             .collect(),
         blocks: n.chain.blocks.iter().map(|(h, b)| (*h, (b.id, b.in_longest_chain))).collect(),
         wallet_balance: w.get_available_balance(),
-        wallet_slips: w.slips.keys().map(|k| k.to_vec()).collect(),
+        wallet_slips: w.slips.iter().map(|(k, s)| (k.to_vec(), (s.amount, s.block_id, s.tx_ordinal, s.slip_index, s.lc, s.spent, type_code(s.slip_type)))).collect(),
         wallet_unspent: w.unspent_slips.iter().map(|k| k.to_vec()).collect(),
         pool: n.mempool.transactions.keys().map(|k| k.to_vec()).collect(),
     }
